@@ -283,6 +283,125 @@ class StepRule:
         return None
 
 
+class ClassStepRule(StepRule):
+    def __init__(self, fn, classes):
+        StepRule.__init__(self, fn)
+        self.classes = classes
+
+    def on_call(self, I, w, ci, args):
+        if ci.name == 'next' and args:
+            it = args[0]
+            itv = I.read(w, it[1]) if it[0] == 'ref' else it
+            prev, evs = w.st
+            cur = self.state(w, ci.depth)
+            if prev is not None:
+                self.steps.add((prev, evs, cur))
+            out = [(w.with_st((cur, (('end',),))), none())]
+            for c in self.classes:
+                item = ('ref', ('const', ('int', c, None)))
+                if itv[0] == 'sym' and itv[1].startswith('zip('):
+                    item = ('tuple', (item, item))
+                out.append((w.with_st((cur, (('class', c),))), some(item)))
+            return out
+        return StepRule.on_call(self, I, w, ci, args)
+
+
+def check_counting_by_filter(res, lib, f, classes):
+    """`bytes.iter().filter(pred).count()`: the count is the number of bytes satisfying pred; pred is evaluated abstractly
+    on every byte class and must hold exactly on first bytes of scalars"""
+    captured = []
+
+    class R:
+        def inline_ok(self, I, ci, body):
+            return False
+
+        def on_call(self, I, w, ci, args):
+            if ci.name == 'filter' and len(args) == 2:
+                captured.append(args[1])
+                return [(w, ('sym', 'filtered'))]
+            if ci.name == 'count' and args and args[0] == ('sym', 'filtered'):
+                return [(w.with_st('counted'), ('sym', 'count'))]
+            if ci.name in ('iter', 'into_iter', 'as_bytes', 'copied', 'cloned'):
+                return [(w, args[0])]
+            return None
+    I = Interp([lib], R())
+    ex = I.run(f, [('sym', 'text')] + [TOP] * (f.body['arg_count'] - 1), None, {})
+    if len(captured) != 1 or not all(rv == ('sym', 'count') for w, rv in ex):
+        return False
+    clos = captured[0]
+    body = I.by_path.get(F.raw_key(clos[1])) if clos[0] == 'closure' else None
+    if body is None:
+        return False
+    sub = Interp([lib], None)
+    env = ('ref', ('const', clos)) if body.body['locals'][1]['ty'].get('k') == 'ref' else clos
+    for c in classes:
+        lo, hi = min(c), max(c)
+        if hi < 0x80 or (0xC2 <= lo and hi <= 0xF4):
+            exp = 1
+        elif 0x80 <= lo and hi <= 0xBF:
+            exp = 0
+        else:
+            continue
+        item = ('ref', ('const', ('ref', ('const', ('int', c, None)))))
+        outs = set()
+        for w, rv in sub.run(body, [env, item], None, {}):
+            if rv[0] == 'pred':
+                outs |= {0, 1}
+            elif rv[0] == 'int' and rv[2] is None:
+                outs |= set(rv[1])
+            else:
+                outs |= {0, 1}
+        good = outs == {exp}
+        res.oblige("D|%s|class %s" % (f.npath, fsm.cls_name(c)), good, violation=None if good else dict(
+            rule='C17.counting', key="C17|counting|%s|%s" % (f.npath, fsm.cls_name(c)),
+            msg="%s: a byte in [%s] (%s of a scalar) is counted %s, expected %s" % (
+                f.npath, fsm.cls_name(c), 'the first byte' if exp else 'a continuation byte',
+                sorted(outs), 'once' if exp else 'not at all')))
+    res.samples.append("%s: filter/count pipeline judged per byte class" % f.npath)
+    return True
+
+
+def check_counting_by_class(res, lib, f, sp):
+    closures = [g for g in lib.lib_fns() if g.kind == 'Closure' and g.path.startswith(f.path + '::')]
+    classes = fsm.partition_at(fsm.int_cuts([f] + closures) | spec.boundaries())
+    rule = ClassStepRule(f, classes)
+    I = Interp([lib], rule)
+    args = []
+    for i in range(1, f.body['arg_count'] + 1):
+        ty = f.body['locals'][i]['ty']
+        args.append(('sym', f.body['locals'][i]['name']) if ty.get('k') == 'ref' else ('int', frozenset(), 0))
+    I.run(f, args, (None, ()), {})
+    if len(rule.steps) < 4:
+        if check_counting_by_filter(res, lib, f, classes):
+            return
+        raise KeyError("%s: neither a byte loop nor an iterator filter/count pipeline recognised" % f.npath)
+    for prev, evs, cur in sorted(rule.steps, key=str):
+        cl = [e[1] for e in evs if e[0] == 'class']
+        if not cl:
+            continue
+        c = cl[0]
+        lo, hi = min(c), max(c)
+        if hi < 0x80 or (0xC2 <= lo and hi <= 0xF4):
+            exp = 1          # first byte of a scalar
+        elif 0x80 <= lo and hi <= 0xBF:
+            exp = 0          # continuation byte
+        else:
+            continue         # bytes that never occur in well-formed text
+        pd, cd = dict(prev), dict(cur)
+        for cn, mode in sp['counters'].items():
+            if mode != 'some' or cn not in pd or cn not in cd:
+                continue
+            a, b = int_singleton(pd[cn]), int_singleton(cd[cn])
+            if a is None or b is None:
+                continue
+            good = b - a == exp
+            res.oblige("D|%s|class %s|%d" % (f.npath, fsm.cls_name(c), a), good, violation=None if good else dict(
+                rule='C17.counting', key="C17|counting|%s|%s" % (f.npath, fsm.cls_name(c)),
+                msg="%s: a byte in [%s] (%s of a scalar) changes the scalar counter `%s` by %d instead of %d" % (
+                    f.npath, fsm.cls_name(c), 'the first byte' if exp else 'a continuation byte', cn, b - a, exp)))
+    res.samples.append("%s: judged per byte class (%d steps)" % (f.npath, len(rule.steps)))
+
+
 def check_counting(res, lib):
     spec_ = {
         'utils::char_count': dict(over='iter(text)', byte='b', counters={'count': 'some'}),
@@ -299,6 +418,10 @@ def check_counting(res, lib):
             nm = f.body['locals'][i]['name']
             args.append(('sym', nm) if ty.get('k') == 'ref' else ('int', frozenset(), 0))
         I.run(f, args, (None, ()), {})
+        if not any(e[0] == 'push' for st in rule.steps for e in st[1]):
+            # the helper does not use the scalar decoder: judge it by what it does per byte class of well-formed text
+            check_counting_by_class(res, lib, f, sp)
+            continue
         if len(rule.steps) < 2:
             raise KeyError("%s: loop not recognised (%d steps)" % (np_, len(rule.steps)))
         for prev, evs, cur in sorted(rule.steps, key=str):
